@@ -396,6 +396,30 @@ def gen_mem_histories(seed, n, focus="mixed"):
                 lines.append("memwn %d %x %x" % (nb, near(), v)); h("memwn")
         lines.append("dump")
         lines.append("end")
+    # deterministic part (appended: consumes nothing of the random stream above): the instruction fetch is an access
+    # path too.  An executable area is followed, with no gap, by an area with each of the permission masks that holds the
+    # rest of an instruction whose first bytes are the last bytes of the code: the fetch window must end with the
+    # executable area, so the cut-off instruction does not decode and nothing of the neighbour is ever executed
+    tails = (("b8", "78563412"), ("48b8", "8877665544332211"), ("4801", "d8"), ("e8", "00000000"), ("0f", "05"),
+             ("48c7c0", "01000000"), ("eb", "fe"))
+    for j, (head, rest) in enumerate(tails):
+        for pm in (0, 1, 2, 3, 4, 5, 7):
+            cid = "fetchedge%d_%d" % (j, pm)
+            code = "90" + head
+            lines.append("case " + cid)
+            lines.append("new %s 1000 1000" % code)
+            lines.append("allregs " + " ".join("%x" % ((0x9e3779b97f4a7c15 * (q + 3 + 16 * j)) & (M - 1)) for q in range(16)))
+            lines.append("allxmm " + " ".join("0" for _ in range(16)))
+            nxt = 0x1000 + len(code) // 2
+            lines.append("init %x %s" % (nxt, rest + "90" * 16))
+            lines.append("prot %x %x" % (nxt, pm))
+            lines.append("zero 8000 100")
+            lines.append("step")
+            lines.append("step")
+            lines.append("step")
+            lines.append("dump")
+            lines.append("end")
+            h("fetch-edge")
     return lines, hist
 
 
@@ -406,7 +430,8 @@ def _mem_prop(prop_id, tier, seed):
         prop_id, lines, hist,
         rule="random histories of the memory API (init/zero/anywhere/prot/resize/stack/read/write/typed accessors) "
              "with addresses at area edges +-2, near 2^64 and extreme lengths, all 8 permission masks plus invalid "
-             "ones; non-trivial = at least one successful write or layout change; distinct = distinct op sequences",
+             "ones; plus deterministic instruction-fetch cases (an instruction cut off by the end of the executable area whose "
+             "remaining bytes lie in an abutting area of every permission mask); non-trivial = at least one successful write or layout change; distinct = distinct op sequences",
         nontrivial=lambda b: any(x.startswith(("memw", "init", "zero", "resize")) for x in b),
         project=lambda r: project_generic(r, ("d area", "d regs")),
         impl_checks=check_disjoint)
